@@ -154,6 +154,8 @@ type c39World struct {
 	// frozenSA is S's content of A at the switch (S must never change it again)
 	frozenSA *logical
 	phase    int // 0 idle, 1 snapshot exported, 2 delta, 3 fenced, 4 switched
+	outboxing bool // S has its outgoing delta target set
+	overlap   bool // snapshot export happens some batches after the outbox started
 	tOwnsA   bool
 	sOwnsA   bool
 	snap     metadb.SlotSnapshot
@@ -564,7 +566,10 @@ func (w *c39World) applyS(tag string, items []sItem) {
 				d.applyPart(w.ref[h], h)
 			}
 			w.sCmd[idx] = d
-			if d.touches(hsA) && w.phase >= 1 && w.phase <= 3 {
+			if d.touches(hsA) && w.outboxing && w.phase <= 3 {
+				if w.phase == 0 {
+					r.Probe("write_outboxed_before_snapshot")
+				}
 				// S forwards deltas for A: the command must be in the durable outbox
 				w.outbox[idx] = d.bytes
 				w.sBytes[idx] = d.bytes
@@ -838,8 +843,17 @@ func (w *c39World) progress(tag string, quiet bool) bool {
 	r, t := w.r, w.r.Tape
 	switch w.phase {
 	case 0:
-		// start: S begins to outbox writes for A and the snapshot is taken at the same log position
-		w.S.setOutgoing(map[uint16]multiraft.SlotID{hsA: c39T})
+		// start: S begins to outbox writes for A; the snapshot is taken at the same log
+		// position, or (overlap runs) a few batches later, so that the outbox also holds
+		// commands that are already inside the snapshot
+		if !w.outboxing {
+			w.S.setOutgoing(map[uint16]multiraft.SlotID{hsA: c39T})
+			w.outboxing = true
+			if w.overlap {
+				r.Logf("%s DRIVER start: outgoing target set, snapshot export deferred", tag)
+				return true
+			}
+		}
 		snap, err := w.S.raw.(interface {
 			ExportHashSlotSnapshot(context.Context, uint16) (metadb.SlotSnapshot, error)
 		}).ExportHashSlotSnapshot(bg, hsA)
@@ -928,9 +942,10 @@ func runC39(r *simkit.Run) {
 	faults := !t.Chance(1, 4)
 	warm := 2 + t.Intn(5)
 	steps := 25 + t.Intn(40)
-	r.Config["faults"], r.Config["steps"], r.Config["warmup"] = faults, steps, warm
+	overlap := t.Chance(1, 3)
+	r.Config["faults"], r.Config["steps"], r.Config["warmup"], r.Config["overlap"] = faults, steps, warm, overlap
 	w := &c39World{r: r, ref: map[uint16]*logical{hsA: newLogical(), hsB: newLogical(), hsC: newLogical()},
-		sOwnsA: true, sCmd: map[uint64]*dcmd{}, sBytes: map[uint64][]byte{}, outbox: map[uint64][]byte{},
+		overlap: overlap, sOwnsA: true, sCmd: map[uint64]*dcmd{}, sBytes: map[uint64][]byte{}, outbox: map[uint64][]byte{},
 		delivered: map[uint64][]byte{}, acked: map[uint64]bool{}, sentEv: map[uint16][]metadb.MessageEventAppend{}, verCount: map[string]uint64{}}
 	w.S = newSlotNode(r, "S", c39S, []uint16{hsA, hsB}, disk)
 	if r.InfraErr != "" {
@@ -1055,7 +1070,7 @@ func runC39(r *simkit.Run) {
 			}
 		}
 		w.checkAll("after " + tag)
-		r.State("c39", w.phase, w.stateUp, w.sFenced(), len(w.outbox) > 0, len(w.delivered) > 0, w.tOwnsA, w.sOwnsA)
+		r.State("c39", w.phase, w.stateUp, w.sFenced(), len(w.outbox), len(w.delivered) > 2, len(w.acked) > 0, w.tOwnsA, w.sOwnsA, w.S.restarts > 0, w.T.restarts > 0, w.outboxing)
 	}
 	// drain: finish the migration without further writers
 	for i := 0; i < 400 && !r.Failed() && r.InfraErr == ""; i++ {
